@@ -55,6 +55,11 @@ func newVecSUT(rng *rand.Rand, kind string, metric comet.DistanceKind, vg func(d
 	case "pq":
 		s.pqM = []int{1, 2, 4}[rng.IntN(3)]
 		s.dim = s.pqM * (1 + rng.IntN(4))
+		if rng.IntN(5) == 0 {
+			// many subspaces: a code of M*nbits bits no longer fits one machine word
+			s.pqM = []int{12, 20}[rng.IntN(2)]
+			s.dim = s.pqM * (1 + rng.IntN(2))
+		}
 		s.nbits = nbitsChoices[rng.IntN(len(nbitsChoices))]
 		s.idx, err = comet.NewPQIndex(s.dim, metric, s.pqM, s.nbits)
 		s.params = fmt.Sprintf("dim=%d M=%d nbits=%d", s.dim, s.pqM, s.nbits)
